@@ -30,7 +30,9 @@ def table : List (String × Out) := [
   ("/vmix2",       ⟨200, 0, 60, .full, false, false, none⟩),
   ("/vbig",        ⟨200, 0, 60, .full, false, false, none⟩),
   -- the handler rewrites the request's URI while it runs; the entry is stored under the URI that was looked up
-  ("/rw",          ⟨200, 0, 60, .full, false, false, none⟩)]
+  ("/rw",          ⟨200, 0, 60, .full, false, false, none⟩),
+  -- its path spells what `/qm` and `x=1` spell together
+  ("/qmx=1",       ⟨200, 0, 60, .full, false, false, none⟩)]
 
 def isVary (path : String) : Bool := path.startsWith "/v"
 
@@ -50,7 +52,7 @@ def queries : List (Option Bytes) := [none, some [], some (b "x=1"), some (b "x=
 
 structure St where
   store : VStore := []
-  counters : List Nat := List.replicate 20 0
+  counters : List Nat := List.replicate 21 0
 
 def BASE : Nat := 100000000
 
